@@ -14,7 +14,7 @@ for n in "$@"; do
   if ! git -C $d/repo apply $s/patch.diff 2>/dev/null; then echo "$kind $n patch-does-not-apply"; continue; fi
   line="$kind $n"
   for p in $props; do
-    out=$(./check $p --tier ${TIER:-quick} 2>&1); rc=$?
+    out=$(VERIF_FIRST=${VERIF_FIRST:-1} ./check $p --tier ${TIER:-quick} 2>&1); rc=$?
     line="$line $p=$rc($(echo "$out" | grep -c '^VIOLATION'))"
     if [ $kind = seeded_benign ] && [ $rc -ne 0 ]; then echo "$out" | grep -E "first unexplained|TOOL-ERROR" | head -2 | cut -c1-700; fi
     if [ $rc -eq 2 ]; then echo "$out" | grep -E "TOOL-ERROR" | head -2 | cut -c1-400; fi
